@@ -803,6 +803,11 @@ impl FrontendInternal {
         &mut self,
         hdr: &VhostUserMsgHeader<FrontendReq>,
     ) -> VhostUserResult<T> {
+        #[cfg(feature = "verif-hooks")]
+        crate::vhost_user::verif_hooks::hold(
+            "frontend.recv_reply",
+            hdr.get_code().map_or(0, |c| u64::from(u32::from(c))),
+        );
         if mem::size_of::<T>() > MAX_MSG_SIZE || hdr.is_reply() {
             return Err(VhostUserError::InvalidParam);
         }
@@ -819,6 +824,11 @@ impl FrontendInternal {
         &mut self,
         hdr: &VhostUserMsgHeader<FrontendReq>,
     ) -> VhostUserResult<(T, Option<Vec<File>>)> {
+        #[cfg(feature = "verif-hooks")]
+        crate::vhost_user::verif_hooks::hold(
+            "frontend.recv_reply_with_optional_files",
+            hdr.get_code().map_or(0, |c| u64::from(u32::from(c))),
+        );
         if mem::size_of::<T>() > MAX_MSG_SIZE || hdr.is_reply() {
             return Err(VhostUserError::InvalidParam);
         }
@@ -847,6 +857,11 @@ impl FrontendInternal {
         &mut self,
         hdr: &VhostUserMsgHeader<FrontendReq>,
     ) -> VhostUserResult<(T, Vec<u8>, Option<Vec<File>>)> {
+        #[cfg(feature = "verif-hooks")]
+        crate::vhost_user::verif_hooks::hold(
+            "frontend.recv_reply_with_payload",
+            hdr.get_code().map_or(0, |c| u64::from(u32::from(c))),
+        );
         if mem::size_of::<T>() > MAX_MSG_SIZE
             || hdr.get_size() as usize <= mem::size_of::<T>()
             || hdr.get_size() as usize > MAX_MSG_SIZE
@@ -878,6 +893,11 @@ impl FrontendInternal {
     }
 
     fn wait_for_ack(&mut self, hdr: &VhostUserMsgHeader<FrontendReq>) -> VhostUserResult<()> {
+        #[cfg(feature = "verif-hooks")]
+        crate::vhost_user::verif_hooks::hold(
+            "frontend.wait_for_ack",
+            hdr.get_code().map_or(0, |c| u64::from(u32::from(c))),
+        );
         if self.acked_protocol_features & VhostUserProtocolFeatures::REPLY_ACK.bits() == 0
             || !hdr.is_need_reply()
         {
